@@ -174,6 +174,10 @@ def enumerate_states(tier):
             states.append(dict(i, item="fn0"))
     for i in trait_invocations():
         states.append(dict(i, item="trait"))
+    # impl blocks: `ref`, `dyn` and `ref dyn` are three spellings of the dynamic kind; `debug` changes nothing
+    for attr, kind in (("", "static"), ("debug", "static"), ("debug = false", "static"), ("ref", "dyn"), ("dyn", "dyn"), ("ref dyn", "dyn"), ("ref debug", "dyn"), ("dyn debug = true", "dyn")):
+        for feature in (False, True):
+            states.append(dict(attr=attr, variant="entrait", feature=feature, key=("implkind", kind), family="implkind", item="impl"))
     states += target_invocations()
     for n, s in enumerate(states):
         s["key_sem"] = repr(s.pop("key")) if "key" in s else None
